@@ -134,7 +134,7 @@ fn worker(prop: &'static str, thorough: bool, seed: u64, first_run: u64, runs: u
         }
         let mut rng = rng::Rng::for_run(seed, i, 0);
         let mut gstats = Probes::new();
-        let (trace, cfg) = gen::Gen::generate(&mut rng, &preset, &mut gstats);
+        let (trace, cfg) = gen::Gen::generate(&mut rng, &preset, &mut gstats, i);
         let res = Exec::run(&trace);
         out.probes.add(&gstats);
         out.probes.add(&res.probes);
@@ -314,7 +314,7 @@ fn cmd_gen(a: &Args) -> i32 {
     let preset = gen::preset_for(prop);
     let mut rng = rng::Rng::for_run(seed, run, 0);
     let mut st = Probes::new();
-    let (trace, cfg) = gen::Gen::generate(&mut rng, &preset, &mut st);
+    let (trace, cfg) = gen::Gen::generate(&mut rng, &preset, &mut st, run);
     let res = Exec::run(&trace);
     println!("{}", J::obj().set("knobs", cfg.to_json()).set("trace", trace.to_json()).pretty());
     for v in res.violations.iter() {
